@@ -418,7 +418,7 @@ def decode_res(op, ints, directed_of):
         out, i = [], 0
         for _ in range(5):
             ps, i = _dec_paths(ints, i)
-            out.append(sorted(ps))
+            out.append(sorted(set(ps)))      # classes are sets: the multiplicity of a repeated input path is not specified
         return dict(zip(['shortest', 'fastest', 'foremost', 'fastest_shortest', 'shortest_fastest'], out))
     if k == 'compact':
         return sorted(_pairs(ints))
@@ -635,7 +635,7 @@ class Impl:
             for p in ps:
                 if al.path_length(p) != len(p) or al.path_duration(p) != p[-1][2] - p[0][2]:
                     return 'BAD-METRIC'
-            return {kk: sorted(tuple(tuple(h) for h in p) for p in v) for kk, v in res.items()}
+            return {kk: sorted(set(tuple(tuple(h) for h in p) for p in v)) for kk, v in res.items()}
         if k == 'compact':
             return sorted(D.compact_timeslot(list(op[2])).items())
         if k == 'occname':
